@@ -426,6 +426,9 @@ pub struct GenCfg {
     pub wrappers: bool,
     /// include the harness-defined third-party writer
     pub third: bool,
+    /// include (rarely) large configurations with varied content; off for the checks whose
+    /// per-base fault enumeration is quadratic in the size of the base
+    pub large: bool,
 }
 
 impl GenCfg {
@@ -437,11 +440,12 @@ impl GenCfg {
             parts: r.chance(1, 2),
             wrappers: r.chance(2, 3),
             third: r.chance(1, 2),
+            large: false,
         }
     }
     /// Only configurations the builders are documented to accept (for receiver-side traffic).
     pub fn valid_only(r: &mut Rng) -> GenCfg {
-        GenCfg { invalid_pm: 0, padding_pm: *r.pick(&[0, 200, 500]), big: r.chance(1, 6), parts: false, wrappers: false, third: false }
+        GenCfg { invalid_pm: 0, padding_pm: *r.pick(&[0, 200, 500]), big: r.chance(1, 6), parts: false, wrappers: false, third: false, large: false }
     }
     pub fn to_json(&self) -> J {
         J::obj()
@@ -794,8 +798,82 @@ pub fn relate_neighbours(r: &mut Rng, s: &mut Spec) {
     }
 }
 
+/// A large configuration with varied content: tens of thousands of elements or more than 64 KiB,
+/// every element drawn separately.  (The length-field sweep reaches such sizes with constant
+/// bodies only; an index, counter or accumulated offset kept in a narrow integer goes wrong after
+/// many elements and shows in what follows them.)
+pub fn gen_large(r: &mut Rng, cfg: &GenCfg) -> Spec {
+    let padding = if r.chance(1, 3) { 4 * r.range(1, 3) as u8 } else { 0 };
+    let small = GenCfg { invalid_pm: 0, big: false, ..cfg.clone() };
+    match r.below(7) {
+        0 => {
+            // few chunks, thousands of items: offsets inside a chunk pass 64 KiB
+            let nc = r.range(1, 3);
+            let chunks = (0..nc)
+                .map(|_| {
+                    let n = r.range(2000, 9000);
+                    Chunk {
+                        ssrc: r.u32_biased(),
+                        items: (0..n)
+                            .map(|_| {
+                                let ty = if r.chance(1, 12) { 8 } else { r.range(1, 7) as u8 };
+                                let vl = r.below(9);
+                                let pl = r.below(4);
+                                let prefix = if ty == 8 { r.bytes(pl) } else { vec![] };
+                                Item { ty, prefix, value: gen_string(r, vl) }
+                            })
+                            .collect(),
+                    }
+                })
+                .collect();
+            Spec::Sdes { chunks, padding }
+        }
+        1 => {
+            // as many separate NACK entries as the sequence space allows, in a seeded subset
+            let stride = r.range(17, 40);
+            let start = r.u16();
+            let n = r.range(1000, 65536 / stride);
+            let mut seqs = Vec::with_capacity(2 * n);
+            for i in 0..n {
+                let base = start.wrapping_add((i * stride) as u16);
+                seqs.push(base);
+                if r.chance(1, 3) {
+                    seqs.push(base.wrapping_add(r.range(1, 16) as u16));
+                }
+            }
+            Spec::Fb { kind: FbKind::Transport, sender: r.u32_biased(), media: r.u32_biased(), fci: Fci::Nack { seqs }, padding }
+        }
+        2 => {
+            let n = r.range(4000, 9000);
+            let base = r.u32();
+            let entries = (0..n).map(|i| (base.wrapping_add((i as u32).wrapping_mul(2_654_435_761)), r.u8())).collect();
+            Spec::Fb { kind: FbKind::Payload, sender: r.u32_biased(), media: r.u32_biased(), fci: Fci::Fir { entries }, padding }
+        }
+        3 => {
+            let n = r.range(8000, 17000);
+            let entries = (0..n).map(|_| ((r.u16() & 0x1fff), (r.u16() & 0x1fff), r.u8() & 0x3f)).collect();
+            Spec::Fb { kind: FbKind::Payload, sender: r.u32_biased(), media: r.u32_biased(), fci: Fci::Sli { entries }, padding }
+        }
+        4 => {
+            let dl = 4 * r.range(16_000, 40_000);
+            Spec::App { ssrc: r.u32_biased(), subtype: r.below(32) as u8, name: "LARG".into(), data: r.bytes(dl), padding }
+        }
+        5 => {
+            let dl = 4 * r.range(16_000, 40_000);
+            Spec::Unknown { pt: r.range(207, 255) as u8, count: r.below(32) as u8, data: r.bytes(dl), padding }
+        }
+        _ => {
+            // a full report with every block drawn separately, behind a long reason-less BYE list
+            Spec::Sr { ssrc: r.u32_biased(), ntp: r.next_u64(), rtp: r.u32(), pc: r.u32(), oc: r.u32(), blocks: (0..31).map(|_| gen_rb(r, &small)).collect(), padding }
+        }
+    }
+}
+
 /// One of the eight built-in packet kinds (no wrappers).
 pub fn gen_packet(r: &mut Rng, cfg: &GenCfg) -> Spec {
+    if cfg.large && cfg.big && r.chance(1, 1200) {
+        return gen_large(r, cfg);
+    }
     let mut s = gen_packet_raw(r, cfg);
     relate_neighbours(r, &mut s);
     s
